@@ -1,3 +1,4 @@
+import RbV.Gen.Limits
 /-
 Pairwise alignment with affine gaps and clipped ends — the mathematical content of C01 / C02
 (core Lean only; shared with C09/C10/C16 through the unit-cost specialisation).
@@ -32,8 +33,12 @@ structure Clip where
   ys : Int
 deriving DecidableEq, Repr
 
-/-- `MIN_SCORE` of `bio::alignment::pairwise`: the code's "minus infinity" (an ordinary integer here) -/
-def minScore : Int := -858993459
+/-- `MIN_SCORE` of `bio::alignment::pairwise`: the code's "minus infinity" (an ordinary integer here).
+Not a copy: `RbV/Gen/Limits.lean` is regenerated from the source text of `pairwise/mod.rs` on every `./check C01|C02`
+(tools/gen_tables.py), so the specification follows the tree under test; what the value must satisfy is stated in
+`RbV/Thm/GenLimits.lean` and restated in `RbV/Thm/C01.lean` / `C02.lean`.  No theorem about `score`/`opt`/`accept`
+depends on the numeric value. -/
+def minScore : Int := RbV.Gen.Limits.minScorePairwise
 
 def gapI (sc : Sc) : St → Int
   | .ins => sc.ge
